@@ -39,7 +39,8 @@ func DistanceToHaversine(meters float64) float64 {
 }
 
 func DistanceFromHaversine(haversine float64) float64 {
-	return earthRadius * 2 * math.Asin(math.Sqrt(haversine))
+	// the haversine of an antipodal pair can round to just above 1
+	return earthRadius * 2 * math.Asin(math.Min(1, math.Sqrt(haversine)))
 }
 
 // DistanceTo return the distance in meters between two point.
